@@ -124,10 +124,10 @@ def valEq : Val → Val → Except Err Bool
   | .undef, .undef => .ok true
   | .bool _, .int _ => .error (.unmodelled "bool == int")
   | .int _, .bool _ => .error (.unmodelled "int == bool")
-  | .list _, _ => .error (.unmodelled "list ==")
-  | _, .list _ => .error (.unmodelled "== list")
-  | .dict _, _ => .error (.unmodelled "dict ==")
-  | _, .dict _ => .error (.unmodelled "== dict")
+  -- only container against container of the same kind needs element-wise comparison (not stated);
+  -- a list / dict / object never equals a scalar, None, Undefined or a container of the other kind
+  | .list _, .list _ => .error (.unmodelled "list == list")
+  | .dict _, .dict _ => .error (.unmodelled "dict == dict")
   | _, _ => .ok false
 
 def cmpOrd (op : CmpOp) (a b : Int) : Bool :=
